@@ -8,6 +8,8 @@
 package c12
 
 import (
+	"errors"
+	"net"
 	"runtime"
 	"sync"
 	"time"
@@ -49,11 +51,19 @@ func Check_TwoClients() {
 	sx.Assert(err == nil, "init")
 	withStop := sx.Choose("stopDuringTraffic", 2) == 1
 	v := [2][2]uint32{{sx.U32("a1"), sx.U32("a2")}, {sx.U32("b1"), sx.U32("b2")}}
+	// one client may disconnect abruptly in the middle of its last message
+	truncate := sx.Choose("client0ClosesMidMessage", 3) // 0: no; 1: inside the header; 2: inside the body
 	var conns [2]*common.FakeConn
 	for c := 0; c < 2; c++ {
 		dom := uint32(10 + c)
 		stream := append(templateMsg(dom), dataMsg(dom, 1, v[c][0])...)
 		stream = append(stream, dataMsg(dom, 2, v[c][1])...)
+		if c == 0 && truncate == 1 {
+			stream = stream[:len(stream)-24+2]
+		}
+		if c == 0 && truncate == 2 {
+			stream = stream[:len(stream)-5]
+		}
 		conns[c] = &common.FakeConn{ReadData: stream, Remote: []string{"10.0.0.1:1000", "10.0.0.2:2000"}[c]}
 	}
 	var got []*entities.Message
@@ -103,7 +113,11 @@ func Check_TwoClients() {
 		}
 		sx.Assert(n <= 3, "message-delivered-more-than-once")
 		if !withStop {
-			sx.Assert(n == 3, "accepted-message-not-delivered")
+			want := 3
+			if c == 0 && truncate != 0 {
+				want = 2 // the cut message is not delivered
+			}
+			sx.Assert(n == want, "accepted-message-not-delivered")
 		}
 	}
 	sx.Assert(sx.LiveGoroutines() == 0, "goroutine-of-the-process-remains-after-stop")
@@ -146,22 +160,42 @@ func Check_TwoUDPClients() {
 	} else if order == 2 {
 		seq = [][2]int{{1, 0}, {0, 0}, {1, 1}, {1, 2}, {0, 1}, {0, 2}}
 	}
-	for _, s := range seq {
-		c, i := s[0], s[1]
-		dom := uint32(10 + c)
-		var pkt []byte
-		if i == 0 {
-			pkt = templateMsg(dom)
-		} else {
-			pkt = dataMsg(dom, uint32(i), v[c][i-1])
+	withStop := sx.Choose("stopDuringTraffic", 2) == 1
+	if withStop {
+		// fewer datagrams, so that two preemptions stay affordable in the quick tier
+		seq = [][2]int{{0, 0}, {0, 1}, {1, 0}, {0, 2}}
+	}
+	stopping := false
+	var readLoop sync.WaitGroup
+	readLoop.Add(1)
+	go func() {
+		// the read loop: one goroutine dispatching datagram after datagram; once the
+		// socket is closed by Stop it ends (at most the datagram in flight is dispatched)
+		defer readLoop.Done()
+		for _, s := range seq {
+			if stopping {
+				return
+			}
+			c, i := s[0], s[1]
+			dom := uint32(10 + c)
+			var pkt []byte
+			if i == 0 {
+				pkt = templateMsg(dom)
+			} else {
+				pkt = dataMsg(dom, uint32(i), v[c][i-1])
+			}
+			cp.VerifHandleUDPMessage(addrs[c], pkt)
 		}
-		cp.VerifHandleUDPMessage(addrs[c], pkt)
+	}()
+	if !withStop {
+		readLoop.Wait()
+		for len(got) < 6 {
+			runtime.Gosched()
+		}
 	}
-	// the client goroutines consume their queues
-	for len(got) < 6 {
-		runtime.Gosched()
-	}
+	stopping = true
 	cp.Stop()
+	readLoop.Wait()
 	cp.CloseMsgChan()
 	consumer.Wait()
 	sx.Assert(cp.GetNumConnToCollector() == 0, "client-table-not-empty-after-stop")
@@ -180,10 +214,17 @@ func Check_TwoUDPClients() {
 			}
 			n++
 		}
-		sx.Assert(n == 3, "datagram-lost-or-duplicated")
+		sx.Assert(n <= 3, "datagram-delivered-more-than-once")
+		if !withStop {
+			sx.Assert(n == 3, "datagram-lost-or-duplicated")
+		}
 	}
 	sx.Assert(sx.LiveGoroutines() == 0, "goroutine-of-the-process-remains-after-stop")
-	sx.Reach("udp-delivered")
+	if withStop {
+		sx.Reach("udp-stopped-during-traffic")
+	} else {
+		sx.Reach("udp-delivered")
+	}
 }
 
 type noClock struct{}
@@ -194,4 +235,190 @@ func (noTimer) Reset(d time.Duration) bool { return true }
 func (*noClock) Now() time.Time            { return time.Unix(1700000000, 0) }
 func (*noClock) AfterFunc(d time.Duration, f func()) collector.VerifTimer {
 	return noTimer{}
+}
+
+// ---- the real Start(): listener / socket provided by the environment stubs
+
+type fakeListener struct {
+	conns  chan net.Conn
+	closed chan struct{}
+	nClose int
+}
+
+var errListenerClosed = errors.New("fakelistener: closed")
+
+func (l *fakeListener) Accept() (net.Conn, error) {
+	select {
+	case c := <-l.conns:
+		return c, nil
+	case <-l.closed:
+		return nil, errListenerClosed
+	}
+}
+func (l *fakeListener) Close() error {
+	l.nClose++
+	if l.nClose == 1 {
+		close(l.closed)
+	}
+	return nil
+}
+func (l *fakeListener) Addr() net.Addr { return udpAddr("10.0.0.9:4739") }
+
+// Check_StartTCP: the real Start() (accept loop, per-connection handlers and
+// readers) on a listener that hands out two in-memory connections; Stop from
+// the caller, possibly while connections are still being accepted.
+func Check_StartTCP() {
+	cp, err := collector.VerifNewCollectingProcess(collector.CollectorInput{Protocol: "tcp", Address: "x"}, nil, 0)
+	sx.Assert(err == nil, "init")
+	withStop := sx.Choose("stopDuringTraffic", 2) == 1
+	v := [2][2]uint32{{sx.U32("a1"), sx.U32("a2")}, {sx.U32("b1"), sx.U32("b2")}}
+	var conns [2]*common.FakeConn
+	l := &fakeListener{conns: make(chan net.Conn, 2), closed: make(chan struct{})}
+	for c := 0; c < 2; c++ {
+		dom := uint32(10 + c)
+		stream := append(templateMsg(dom), dataMsg(dom, 1, v[c][0])...)
+		stream = append(stream, dataMsg(dom, 2, v[c][1])...)
+		conns[c] = &common.FakeConn{ReadData: stream, Remote: []string{"10.0.0.1:1000", "10.0.0.2:2000"}[c]}
+		l.conns <- conns[c]
+	}
+	sx.RegisterListener(l)
+	var got []*entities.Message
+	var side sync.WaitGroup
+	side.Add(2)
+	go func() {
+		defer side.Done()
+		for m := range cp.GetMsgChan() {
+			got = append(got, m)
+		}
+	}()
+	go func() {
+		defer side.Done()
+		cp.Start()
+	}()
+	if !withStop {
+		for conns[0].Closed == 0 || conns[1].Closed == 0 {
+			runtime.Gosched()
+		}
+	} else {
+		// Stop is only meaningful once Start is serving (Stop racing with the
+		// beginning of Start is a caller error): wait for the first accept
+		for len(l.conns) == 2 {
+			runtime.Gosched()
+		}
+	}
+	cp.Stop()
+	cp.CloseMsgChan()
+	side.Wait()
+	sx.Assert(l.nClose >= 1, "listener-not-closed-by-stop")
+	sx.Assert(cp.GetNumConnToCollector() == 0, "connection-count-not-back-to-zero")
+	// every connection the accept loop took is closed
+	for c := 0; c < 2; c++ {
+		accepted := false
+		for _, m := range got {
+			if m.GetObsDomainID() == uint32(10+c) {
+				accepted = true
+			}
+		}
+		if accepted || !withStop {
+			sx.Assert(conns[c].Closed >= 1, "accepted-connection-not-closed")
+		}
+	}
+	perClient(got, v, withStop, "tcp")
+	sx.Assert(sx.LiveGoroutines() == 0, "goroutine-of-the-process-remains-after-stop")
+	if withStop {
+		sx.Reach("start-tcp-stopped-during-traffic")
+	} else {
+		sx.Reach("start-tcp-all-delivered")
+	}
+}
+
+func perClient(got []*entities.Message, v [2][2]uint32, withStop bool, what string) {
+	for c := 0; c < 2; c++ {
+		dom := uint32(10 + c)
+		n := 0
+		for _, m := range got {
+			if m.GetObsDomainID() != dom {
+				continue
+			}
+			if n == 0 {
+				sx.Assert(m.GetSet().GetSetType() == entities.Template, what+"-order-within-client")
+			} else {
+				sx.Assert(m.GetSet().GetSetType() == entities.Data, what+"-order-within-client")
+				el := m.GetSet().GetRecords()[0].GetOrderedElementList()
+				sx.Assert(sx.And(m.GetSequenceNum() == uint32(n), el[0].GetUnsigned32Value() == v[c][n-1]), what+"-message-duplicated-reordered-corrupted-or-mixed-between-clients")
+			}
+			n++
+		}
+		sx.Assert(n <= 3, what+"-message-delivered-more-than-once")
+		if !withStop {
+			sx.Assert(n == 3, what+"-accepted-message-not-delivered")
+		}
+	}
+}
+
+// Check_StartUDP: the real Start() of the UDP server (socket read loop with
+// its buffer handling, dispatch, per-client goroutines) on a stub socket that
+// delivers the datagrams of two clients; Stop from the caller.
+func Check_StartUDP() {
+	cp, err := collector.VerifNewCollectingProcess(collector.CollectorInput{Protocol: "udp", Address: "10.0.0.9:4739", TemplateTTL: 100, MaxBufferSize: 128}, &noClock{}, 0)
+	sx.Assert(err == nil, "init")
+	v := [2][2]uint32{{sx.U32("a1"), sx.U32("a2")}, {sx.U32("b1"), sx.U32("b2")}}
+	withStop := sx.Choose("stopDuringTraffic", 2) == 1
+	order := sx.Choose("arrivalOrder", 2)
+	seq := [][2]int{{0, 0}, {1, 0}, {0, 1}, {1, 1}, {0, 2}, {1, 2}}
+	if order == 1 {
+		seq = [][2]int{{1, 0}, {0, 0}, {0, 1}, {0, 2}, {1, 1}, {1, 2}}
+	}
+	if withStop {
+		seq = seq[:4]
+	}
+	from := []string{"10.0.0.1:1000", "10.0.0.2:2000"}
+	var payloads [][]byte
+	var froms []string
+	for _, s := range seq {
+		c, i := s[0], s[1]
+		dom := uint32(10 + c)
+		if i == 0 {
+			payloads = append(payloads, templateMsg(dom))
+		} else {
+			payloads = append(payloads, dataMsg(dom, uint32(i), v[c][i-1]))
+		}
+		froms = append(froms, from[c])
+	}
+	sx.RegisterDatagrams(payloads, froms)
+	var got []*entities.Message
+	var side sync.WaitGroup
+	side.Add(2)
+	go func() {
+		defer side.Done()
+		for m := range cp.GetMsgChan() {
+			got = append(got, m)
+		}
+	}()
+	go func() {
+		defer side.Done()
+		cp.Start()
+	}()
+	if !withStop {
+		for len(got) < len(seq) {
+			runtime.Gosched()
+		}
+	} else {
+		// as above: wait until the read loop has taken its first datagram
+		for sx.DatagramsRead() == 0 {
+			runtime.Gosched()
+		}
+	}
+	cp.Stop()
+	cp.CloseMsgChan()
+	side.Wait()
+	sx.Assert(sx.UDPSocketClosed() >= 1, "socket-not-closed-by-stop")
+	sx.Assert(cp.GetNumConnToCollector() == 0, "client-table-not-empty-after-stop")
+	perClient(got, v, withStop, "udp")
+	sx.Assert(sx.LiveGoroutines() == 0, "goroutine-of-the-process-remains-after-stop")
+	if withStop {
+		sx.Reach("start-udp-stopped-during-traffic")
+	} else {
+		sx.Reach("start-udp-all-delivered")
+	}
 }
